@@ -42,7 +42,7 @@ def streaming_rule(rep, prog, cfg):
                  "into a hard error or a short match, so the result depends on where the stream was split" % n)
     rep.check(not complete, rule, cfg + "/no complete-input combinators", "parser.rs", "see above",
               detail={"streaming_combinators": sorted(streaming), "bodies": len(R)})
-    rep.floor(rule + ".control", cfg + "/streaming combinators seen", len(streaming), 8)
+    rep.floor(rule + ".control", cfg + "/streaming combinators seen", len(streaming), 4)
 
 
 def consume_rule(rep, prog, cfg):
